@@ -408,6 +408,7 @@ fn instantiate_struct_fields(
 
 fn collect_runtime_types(
     file: &anf::File,
+    goenv: &GlobalGoEnv,
 ) -> (IndexSet<tast::Ty>, IndexSet<tast::Ty>, IndexSet<tast::Ty>) {
     struct Collector {
         tuples: IndexSet<tast::Ty>,
@@ -416,14 +417,31 @@ fn collect_runtime_types(
     }
 
     impl Collector {
-        fn collect_file(
-            mut self,
-            file: &anf::File,
-        ) -> (IndexSet<tast::Ty>, IndexSet<tast::Ty>, IndexSet<tast::Ty>) {
+        fn collect_file(&mut self, file: &anf::File) {
             for item in &file.toplevels {
                 self.collect_fn(item);
             }
-            (self.tuples, self.arrays, self.refs)
+        }
+
+        // Type definitions are emitted whether or not a function mentions them, so the
+        // helper types their fields need must exist as well.
+        fn collect_defs(&mut self, goenv: &GlobalGoEnv) {
+            for (_, def) in goenv.structs() {
+                if def.generics.is_empty() {
+                    for (_, ty) in &def.fields {
+                        self.collect_type(ty);
+                    }
+                }
+            }
+            for (_, def) in goenv.enums() {
+                if def.generics.is_empty() {
+                    for (_, fields) in &def.variants {
+                        for ty in fields {
+                            self.collect_type(ty);
+                        }
+                    }
+                }
+            }
         }
 
         fn collect_fn(&mut self, item: &anf::Fn) {
@@ -586,12 +604,14 @@ fn collect_runtime_types(
         }
     }
 
-    Collector {
+    let mut collector = Collector {
         tuples: IndexSet::new(),
         arrays: IndexSet::new(),
         refs: IndexSet::new(),
-    }
-    .collect_file(file)
+    };
+    collector.collect_file(file);
+    collector.collect_defs(goenv);
+    (collector.tuples, collector.arrays, collector.refs)
 }
 
 #[derive(Default)]
@@ -2295,7 +2315,7 @@ pub fn go_file(
     let goenv = GlobalGoEnv::from_anf_env(anfenv);
     let mut all = Vec::new();
 
-    let (tuple_types, array_types, ref_types) = collect_runtime_types(&file);
+    let (tuple_types, array_types, ref_types) = collect_runtime_types(&file, &goenv);
 
     all.extend(runtime::make_runtime());
     all.extend(runtime::make_array_runtime(&array_types));
